@@ -109,3 +109,201 @@ Example C17_witness :
   | Err _ => False
   end.
 Proof. exact NaiveExamples.ex_naive_single. Qed.
+
+(* ---------------------------------------------------------------------------------------------- *)
+(* Run level: the closed loop scheduler + executor, [sim_tick C ANaive] and [sim_tick C AStarter] (both run
+   [naive_step]; [starter] selects the algorithm), started in [init_sim C np cpu ram] ([np] pools of [cpu]
+   CPUs and [ram] GB). [sim_reach C a 0 (init_sim ..) t s]: [s] is the state at tick [t] of a run
+   (Proofs/PriorityPoolRunFacts.v); [sim_reach C a t s t' s']: the run continues from [s] to [s'].
+   For every workload [l] of well-formed DAGs, every pool count and size, every tick rate and script; a run
+   that raises stops, so only ticks that returned are steps. Proofs in Proofs/NaiveRunFacts.v. *)
+From Eudoxia Require Import Model.Simulator Proofs.PriorityPoolRunFacts Proofs.NaiveRunFacts.
+Close Scope Q_scope.
+Close Scope Z_scope.
+
+(* once an operator of pipeline [k] is FAILED in some state [s] of the run, it is FAILED in every later
+   state [s'], and no tick taken from [s'] creates a container with an operator of pipeline [k] *)
+Theorem C17_run_never_after_failure : forall C (starter : bool) l np cpu ram t s t' s' k o,
+  cf_static C = mk_static l -> dags_wf l ->
+  sim_reach C (if starter then AStarter else ANaive) 0%Z (init_sim C np cpu ram) t s ->
+  sim_reach C (if starter then AStarter else ANaive) t s t' s' ->
+  In o (pd_order (pipe_of (cf_static C) k)) -> st_of (e_world (sm_exec s)) o = Failed ->
+  st_of (e_world (sm_exec s')) o = Failed /\
+  forall newp s'' lg, sim_tick C (if starter then AStarter else ANaive) t' s' newp = Ok (s'', lg) ->
+    forall a o', In a (tl_asgs lg) -> In o' (a_ops a) -> op_pipe (cf_static C) o' <> k.
+Proof. exact NaiveRunFacts.run_never_after_failure. Qed.
+Print Assumptions C17_run_never_after_failure.
+
+(* the same, starting from a container that ended with an error: among the results [sm_results s] that tick
+   [t - 1] produced, a result with the error flag names an operator that is FAILED, stays FAILED, and whose
+   pipeline never gets a container again *)
+Theorem C17_run_failed_container_final : forall C (starter : bool) l np cpu ram t s t' s' r,
+  cf_static C = mk_static l -> dags_wf l ->
+  sim_reach C (if starter then AStarter else ANaive) 0%Z (init_sim C np cpu ram) t s ->
+  sim_reach C (if starter then AStarter else ANaive) t s t' s' ->
+  In r (sm_results s) -> r_err r = true ->
+  exists o, In o (r_ops r) /\ st_of (e_world (sm_exec s)) o = Failed /\
+            st_of (e_world (sm_exec s')) o = Failed /\
+    forall newp s'' lg, sim_tick C (if starter then AStarter else ANaive) t' s' newp = Ok (s'', lg) ->
+      forall a o', In a (tl_asgs lg) -> In o' (a_ops a) ->
+        op_pipe (cf_static C) o' <> op_pipe (cf_static C) o.
+Proof. exact NaiveRunFacts.run_failed_container_final. Qed.
+Print Assumptions C17_run_failed_container_final.
+
+(* no retries, positively: every operator put into a container by any tick of the run was PENDING in the
+   state the tick started from (so it never was in a container before: see C17_run_served_for_good), and
+   its pipeline had no FAILED operator *)
+Theorem C17_run_assigns_pending : forall C (starter : bool) l np cpu ram t s newp s' lg,
+  cf_static C = mk_static l -> dags_wf l ->
+  sim_reach C (if starter then AStarter else ANaive) 0%Z (init_sim C np cpu ram) t s ->
+  sim_tick C (if starter then AStarter else ANaive) t s newp = Ok (s', lg) ->
+  forall a o, In a (tl_asgs lg) -> In o (a_ops a) ->
+    st_of (e_world (sm_exec s)) o = Pending /\
+    forall o', In o' (pd_order (pipe_of (cf_static C) (op_pipe (cf_static C) o))) ->
+               st_of (e_world (sm_exec s)) o' <> Failed.
+Proof. exact NaiveRunFacts.run_assigns_pending. Qed.
+Print Assumptions C17_run_assigns_pending.
+
+(* nothing is lost: in every state of the run the waiting queue holds no pipeline twice and only pipelines
+   that have arrived ([map fst (sm_arrival s)], in arrival order), and every arrived pipeline that is
+   missing from the queue is complete (all its operators COMPLETED) or failed (one of its operators FAILED).
+   In particular a pipeline that is neither complete nor failed is in the queue, also while one of its
+   containers is running *)
+Theorem C17_run_no_loss : forall C (starter : bool) l np cpu ram t s,
+  cf_static C = mk_static l -> dags_wf l ->
+  sim_reach C (if starter then AStarter else ANaive) 0%Z (init_sim C np cpu ram) t s ->
+  NoDup (ss_queue (sm_sched s)) /\ NoDup (map fst (sm_arrival s)) /\
+  (forall k, In k (ss_queue (sm_sched s)) -> In k (map fst (sm_arrival s))) /\
+  (forall k, In k (map fst (sm_arrival s)) ->
+     In k (ss_queue (sm_sched s)) \/
+     (forall o, In o (pd_order (pipe_of (cf_static C) k)) -> st_of (e_world (sm_exec s)) o = Completed) \/
+     (exists o, In o (pd_order (pipe_of (cf_static C) k)) /\ st_of (e_world (sm_exec s)) o = Failed)).
+Proof. exact NaiveRunFacts.run_no_loss. Qed.
+Print Assumptions C17_run_no_loss.
+
+(* whole pool, commands: a tick of the run never suspends; it creates at most one container per pool; each
+   goes to a pool that holds no container and gets all that this pool has free, which is the whole pool
+   ([cpu] CPUs, [ram] GB) -- so nothing is ever created in a run with [cpu <= 0] or [ram <= 0].
+   No hypothesis on the static description *)
+Theorem C17_run_whole_pool : forall C (starter : bool) np cpu ram t s newp s' lg,
+  sim_reach C (if starter then AStarter else ANaive) 0%Z (init_sim C np cpu ram) t s ->
+  sim_tick C (if starter then AStarter else ANaive) t s newp = Ok (s', lg) ->
+  tl_susp lg = [] /\
+  NoDup (map a_pool (tl_asgs lg)) /\
+  forall a, In a (tl_asgs lg) ->
+    exists p, In p (e_pools (sm_exec s)) /\ a_pool a = Z.of_nat (p_id p) /\ p_active p = [] /\
+              a_cpu a = p_avail_cpu p /\ a_ram a = p_avail_ram p /\
+              p_avail_cpu p = cpu /\ (p_avail_ram p == ram)%Q /\ (0 < cpu)%Z /\ (0 < ram)%Q.
+Proof. exact NaiveRunFacts.naive_run_whole_pool. Qed.
+Print Assumptions C17_run_whole_pool.
+
+(* whole pool, states: in every state of the run a pool has nothing suspending or suspended and either no
+   container and everything free, or exactly one live container that holds the whole pool, nothing free *)
+Theorem C17_run_one_container_per_pool : forall C (starter : bool) np cpu ram t s p,
+  sim_reach C (if starter then AStarter else ANaive) 0%Z (init_sim C np cpu ram) t s ->
+  In p (e_pools (sm_exec s)) ->
+  p_suspending p = [] /\ p_suspended p = [] /\
+  ((p_active p = [] /\ p_avail_cpu p = cpu /\ (p_avail_ram p == ram)%Q) \/
+   (exists c, p_active p = [c] /\ c_cpu c = cpu /\ (c_ram c == ram)%Q /\
+              p_avail_cpu p = 0%Z /\ (p_avail_ram p == 0)%Q)).
+Proof. exact NaiveRunFacts.naive_run_one_container_per_pool. Qed.
+Print Assumptions C17_run_one_container_per_pool.
+
+(* FIFO across rounds, states. [fresh C w k]: every operator of pipeline [k] is PENDING in [w], i.e. [k]
+   has never been given a container (C17_run_served_for_good). When every arrived pipeline has operators:
+   the never-served pipelines are a final segment of the arrival order (if [k1] arrived before [k2] and
+   [k2] has been served, so has [k1]); they stand in the queue in arrival order; and a pipeline that has
+   not arrived is untouched *)
+Theorem C17_run_fifo : forall C (starter : bool) l np cpu ram t s,
+  cf_static C = mk_static l -> dags_wf l ->
+  sim_reach C (if starter then AStarter else ANaive) 0%Z (init_sim C np cpu ram) t s ->
+  (forall k, In k (map fst (sm_arrival s)) -> pd_order (pipe_of (cf_static C) k) <> []) ->
+  (forall l1 k1 l2 k2, map fst (sm_arrival s) = l1 ++ k1 :: l2 -> In k2 l2 ->
+     fresh C (e_world (sm_exec s)) k1 -> fresh C (e_world (sm_exec s)) k2) /\
+  filter (freshb C (e_world (sm_exec s))) (ss_queue (sm_sched s))
+    = filter (freshb C (e_world (sm_exec s))) (map fst (sm_arrival s)) /\
+  (forall k, ~ In k (map fst (sm_arrival s)) -> fresh C (e_world (sm_exec s)) k).
+Proof. exact NaiveRunFacts.run_fifo. Qed.
+Print Assumptions C17_run_fifo.
+
+(* FIFO across rounds, ticks. The containers of a tick go, in order, to the pipelines [served] (each
+   pipeline's assignable operators at that moment, C17_single_ready_operator); a served pipeline has
+   arrived and is not fresh afterwards; and while a pipeline [k1] that arrived before [k2] is still waiting
+   for its first container, [k2] gets a container only in a tick in which [k1] gets one too, earlier *)
+Theorem C17_run_fifo_tick : forall C (starter : bool) l np cpu ram t s newp s' lg,
+  cf_static C = mk_static l -> dags_wf l ->
+  sim_reach C (if starter then AStarter else ANaive) 0%Z (init_sim C np cpu ram) t s ->
+  sim_tick C (if starter then AStarter else ANaive) t s newp = Ok (s', lg) ->
+  (forall k, In k (map fst (sm_arrival s')) -> pd_order (pipe_of (cf_static C) k) <> []) ->
+  exists served,
+    Forall2 (fun k a => a_prio a = prio_of_pipe C k /\
+                        exists wk, asteps (cf_static C) (e_world (sm_exec s)) wk /\
+                                   a_ops a = nv_ops C (single_of C starter) wk k)
+            served (tl_asgs lg) /\
+    (forall k, In k served -> In k (map fst (sm_arrival s')) /\ ~ fresh C (e_world (sm_exec s')) k) /\
+    (forall l1 k1 l2 k2, map fst (sm_arrival s') = l1 ++ k1 :: l2 -> In k2 l2 ->
+       fresh C (e_world (sm_exec s)) k1 -> In k2 served ->
+       exists s1 s2, served = s1 ++ k1 :: s2 /\ In k2 s2).
+Proof. exact NaiveRunFacts.run_fifo_tick. Qed.
+Print Assumptions C17_run_fifo_tick.
+
+(* a pipeline that is fresh in a state of the run was fresh in every earlier state: an operator that has
+   left PENDING never returns to it (a naive run never suspends). No hypothesis on the static description *)
+Theorem C17_run_served_for_good : forall C (starter : bool) np cpu ram t s t' s' k,
+  sim_reach C (if starter then AStarter else ANaive) 0%Z (init_sim C np cpu ram) t s ->
+  sim_reach C (if starter then AStarter else ANaive) t s t' s' ->
+  fresh C (e_world (sm_exec s')) k -> fresh C (e_world (sm_exec s)) k.
+Proof. exact NaiveRunFacts.naive_run_fresh_back. Qed.
+Print Assumptions C17_run_served_for_good.
+
+(* the hypothesis "every arrived pipeline has operators" of the two FIFO theorems cannot be dropped: a
+   pipeline without operators is vacuously fresh for ever, while a pipeline that arrived after it is
+   served (witness: [NaiveRunExamples.Cz], pipelines [[]] and one operator, both arriving at tick 0) *)
+Theorem C17_run_fifo_needs_operators_refuted :
+  exists C l np cpu ram t s,
+    cf_static C = mk_static l /\ dags_wf l /\
+    sim_reach C ANaive 0%Z (init_sim C np cpu ram) t s /\
+    exists l1 k1 l2 k2, map fst (sm_arrival s) = l1 ++ k1 :: l2 /\ In k2 l2 /\
+                        fresh C (e_world (sm_exec s)) k1 /\ ~ fresh C (e_world (sm_exec s)) k2.
+Proof. exact NaiveRunFacts.run_fifo_needs_operators_refuted. Qed.
+Print Assumptions C17_run_fifo_needs_operators_refuted.
+
+(* non-vacuity: [NaiveRunExamples.Cx]: pipeline 0 = chain of two operators, pipeline 1 = one operator that is
+   OOM-killed in its second tick, pipeline 2 = two independent operators; one pool of 4 CPUs / 8 GB, one
+   operator per container; 0 and 1 arrive at tick 0, 2 at tick 1. [s_mid] is the state after 5 ticks, [s_end]
+   after 12. The run: containers for [0], [2] (killed), [1], [3], [4]; pipeline 1 is never tried again *)
+Example C17_run_witness_logs :
+  snd NaiveRunExamples.run_a = None /\ snd NaiveRunExamples.run_b = None /\
+  map (fun lg => map a_ops (tl_asgs lg)) (snd (fst NaiveRunExamples.run_a) ++ snd (fst NaiveRunExamples.run_b)) =
+    [[[0]]; []; [[2]]; []; [[1]]; []; [[3]]; []; [[4]]; []; []; []].
+Proof. exact NaiveRunExamples.ex_logs. Qed.
+
+(* (operator states, queue, arrivals, per pool: operators of the live containers and free CPUs, results) *)
+Example C17_run_witness_mid :
+  NaiveRunExamples.view NaiveRunExamples.s_mid =
+    ([Completed; Running; Failed; Pending; Pending], [2; 1; 0], [0; 1; 2], [([[1]], 0%Z)], []).
+Proof. exact NaiveRunExamples.ex_mid. Qed.
+
+Example C17_run_witness_end :
+  NaiveRunExamples.view NaiveRunExamples.s_end =
+    ([Completed; Completed; Failed; Completed; Completed], [], [0; 1; 2], [([], 4%Z)], []).
+Proof. exact NaiveRunExamples.ex_end. Qed.
+
+(* the hypotheses of the run-level theorems hold on this run ... *)
+Example C17_run_witness_hypotheses :
+  cf_static NaiveRunExamples.Cx = mk_static NaiveRunExamples.Lx /\ dags_wf NaiveRunExamples.Lx /\
+  sim_reach NaiveRunExamples.Cx ANaive 0%Z (init_sim NaiveRunExamples.Cx 1 4%Z 8%Q) 5%Z NaiveRunExamples.s_mid /\
+  sim_reach NaiveRunExamples.Cx ANaive 5%Z NaiveRunExamples.s_mid 12%Z NaiveRunExamples.s_end /\
+  In 2 (pd_order (pipe_of (cf_static NaiveRunExamples.Cx) 1)) /\
+  st_of (e_world (sm_exec NaiveRunExamples.s_mid)) 2 = Failed /\
+  (forall k, In k (map fst (sm_arrival NaiveRunExamples.s_end)) ->
+             pd_order (pipe_of (cf_static NaiveRunExamples.Cx) k) <> []).
+Proof. exact NaiveRunExamples.ex_hypotheses. Qed.
+
+(* ... and C17_run_never_after_failure applied to it: operator 2 is still FAILED at the end, and whatever
+   arrives next, pipeline 1 gets nothing *)
+Example C17_run_witness_never_again :
+  st_of (e_world (sm_exec NaiveRunExamples.s_end)) 2 = Failed /\
+  forall newp s'' lg, sim_tick NaiveRunExamples.Cx ANaive 12%Z NaiveRunExamples.s_end newp = Ok (s'', lg) ->
+    forall a o', In a (tl_asgs lg) -> In o' (a_ops a) -> op_pipe (cf_static NaiveRunExamples.Cx) o' <> 1.
+Proof. exact NaiveRunExamples.ex_never_again. Qed.
